@@ -35,6 +35,13 @@ def gen_cases(tier, seed):
         a, b = rng.choice(nodes), rng.choice(nodes)
         cases.append({"forest": f, "a": [a[0], a[1]], "b": [b[0], b[1]], "cls": rng.choice(["any", "light", "mixin", "symmix"]),
                       "how": rng.choice(["direct", "history"]), "seed": i})
+    # a deep degenerate tree (450 levels, run under the interpreter's default recursion limit): the walk must not depend on the interpreter's recursion depth
+    deep = gen.chain(450)
+    leaf, mid = [0] * 449, [0] * 200
+    for a, b in (([0, leaf], [0, []]), ([0, []], [0, leaf]), ([0, leaf], [0, mid])):
+        for cls in ("any", "light"):
+            cases.append({"forest": [deep], "a": a, "b": b, "cls": cls, "how": "direct", "seed": 0,
+                          "reclimit_default": True, "adv": None})
     gen.sprinkle_adv(cases)
     meta = {"rule": "every ordered forest with <= %d nodes x every ordered pair of nodes (same tree and different trees); "
                     "classes rotate, a fifth of the forests is reached through a mutation history; then %d random pairs in "
